@@ -376,13 +376,35 @@ func (r *Result) facts(v ssa.Value, st pstate, depth int) Abs {
 	// what an earlier edge said about the previous instance (loop-carried
 	// re-execution) does not apply to it.
 	if in, ok := v.(ssa.Instruction); ok && in.Block() == b {
-		return AUnknown
+		if _, _, immutable := paramField(v); !immutable {
+			return AUnknown
+		}
 	}
 	// incoming edge
 	if st.pred >= 0 {
 		p := fn.Blocks[st.pred]
 		if a := edgeFact(p, b, v); a.K != KUnknown {
 			return a
+		}
+		// the branch in p tests a phi of p (`a && b` built as a value): when only one way into p can have produced
+		// the outcome taken, control came that way, and what that way's branches say holds here
+		if depth < 8 {
+			if q := r.singleFeasiblePred(p, b, st, depth); q != nil {
+				if a := edgeFact(q, p, v); a.K != KUnknown {
+					return a
+				}
+				for d := q; d != nil; d = d.Idom() {
+					pd := d.Idom()
+					if pd == nil {
+						break
+					}
+					if len(d.Preds) == 1 && d.Preds[0] == pd {
+						if a := edgeFact(pd, d, v); a.K != KUnknown {
+							return a
+						}
+					}
+				}
+			}
 		}
 		// then everything that dominates the predecessor
 		b = p
@@ -406,6 +428,44 @@ func (r *Result) facts(v ssa.Value, st pstate, depth int) Abs {
 
 func edgeFactSelf(b *ssa.BasicBlock, v ssa.Value) Abs { return AUnknown }
 
+// singleFeasiblePred: p ends in a branch on a boolean phi of p itself (possibly negated); the edge p->succ fixes the
+// phi's value; if exactly one incoming edge of p carries a value that can be that outcome, that predecessor is
+// returned.
+func (r *Result) singleFeasiblePred(p, succ *ssa.BasicBlock, st pstate, depth int) *ssa.BasicBlock {
+	if len(p.Instrs) == 0 || len(p.Preds) < 2 {
+		return nil
+	}
+	iff, ok := p.Instrs[len(p.Instrs)-1].(*ssa.If)
+	if !ok || p.Succs[0] == p.Succs[1] {
+		return nil
+	}
+	pol := p.Succs[0] == succ
+	cond := iff.Cond
+	for i := 0; i < 3; i++ {
+		if u, isU := cond.(*ssa.UnOp); isU && u.Op == token.NOT {
+			cond, pol = u.X, !pol
+			continue
+		}
+		break
+	}
+	phi, isPhi := cond.(*ssa.Phi)
+	if !isPhi || phi.Block() != p {
+		return nil
+	}
+	var only *ssa.BasicBlock
+	for i, e := range phi.Edges {
+		a := r.eval(e, pstate{fr: st.fr, pred: -2, blk: p.Preds[i].Index}, depth+2)
+		if bv, isB := a.IsBool(); isB && bv != pol {
+			continue
+		}
+		if only != nil {
+			return nil
+		}
+		only = p.Preds[i]
+	}
+	return only
+}
+
 // edgeFact: what the edge p->s tells about v.
 func edgeFact(p, s *ssa.BasicBlock, v ssa.Value) Abs {
 	if len(p.Instrs) == 0 {
@@ -422,12 +482,109 @@ func edgeFact(p, s *ssa.BasicBlock, v ssa.Value) Abs {
 	return learn(iff.Cond, pol, v, 0)
 }
 
+// paramField: v is a field (of a field ...) of a struct-valued parameter, read with Field instructions only. Such a
+// value is immutable: every instruction that reads the same path of the same parameter yields the same value
+// (go/ssa performs no common-subexpression elimination, so `p.f` written twice is two instructions).
+func paramField(v ssa.Value) (*ssa.Parameter, string, bool) {
+	path := ""
+	// the same through go/ssa's memory copy of an address-taken parameter: a load of &copy.f... where the copy is
+	// written once (by the parameter) and its address is only used to read fields
+	if ld, isLd := v.(*ssa.UnOp); isLd && ld.Op == token.MUL {
+		a := ld.X
+		for i := 0; i < 6; i++ {
+			fa, ok := a.(*ssa.FieldAddr)
+			if !ok {
+				break
+			}
+			path = fmt.Sprintf(".%d", fa.Field) + path
+			a = fa.X
+		}
+		if al, isAl := a.(*ssa.Alloc); isAl && path != "" {
+			if p := readOnlySpill(al); p != nil {
+				return p, path, true
+			}
+		}
+		return nil, "", false
+	}
+	for i := 0; i < 6; i++ {
+		f, ok := v.(*ssa.Field)
+		if !ok {
+			break
+		}
+		path = fmt.Sprintf(".%d", f.Field) + path
+		v = f.X
+	}
+	p, isP := v.(*ssa.Parameter)
+	return p, path, isP && path != ""
+}
+
+var spillCache sync.Map
+
+// readOnlySpill: al is the memory copy of a parameter (SpilledParam) that is never written again and whose address
+// is used only to read it (field addresses that are only loaded from, loads of the whole value).
+func readOnlySpill(al *ssa.Alloc) *ssa.Parameter {
+	if v, ok := spillCache.Load(al); ok {
+		p, _ := v.(*ssa.Parameter)
+		return p
+	}
+	p := SpilledParam(al)
+	var onlyRead func(addr ssa.Value, depth int) bool
+	onlyRead = func(addr ssa.Value, depth int) bool {
+		refs := addr.Referrers()
+		if refs == nil || depth > 6 {
+			return false
+		}
+		for _, u := range *refs {
+			switch x := u.(type) {
+			case *ssa.Store:
+				if x.Addr != addr || addr != ssa.Value(al) {
+					return false
+				}
+			case *ssa.UnOp:
+				if x.Op != token.MUL {
+					return false
+				}
+			case *ssa.FieldAddr:
+				if !onlyRead(x, depth+1) {
+					return false
+				}
+			case *ssa.DebugRef:
+			default:
+				return false
+			}
+		}
+		return true
+	}
+	if p != nil && !onlyRead(al, 0) {
+		p = nil
+	}
+	if p == nil {
+		spillCache.Store(al, false)
+	} else {
+		spillCache.Store(al, p)
+	}
+	return p
+}
+
+// sameVal: a and b are the same SSA value, or two reads of the same immutable parameter field.
+func sameVal(a, b ssa.Value) bool {
+	if a == b {
+		return true
+	}
+	pa, fa, oka := paramField(a)
+	if !oka {
+		return false
+	}
+	pb, fb, okb := paramField(b)
+	return okb && pa == pb && fa == fb
+}
+
 // learn: given that cond evaluates to pol, what is v?
 func learn(cond ssa.Value, pol bool, v ssa.Value, depth int) Abs {
 	if depth > 6 {
 		return AUnknown
 	}
-	if cond == v {
+	if sameVal(cond, v) {
 		if pol {
 			return ATrue
 		}
@@ -445,9 +602,9 @@ func learn(cond ssa.Value, pol bool, v ssa.Value, depth int) Abs {
 		eq := (c.Op == token.EQL) == pol
 		var other ssa.Value
 		switch {
-		case c.X == v:
+		case sameVal(c.X, v):
 			other = c.Y
-		case c.Y == v:
+		case sameVal(c.Y, v):
 			other = c.X
 		default:
 			return AUnknown
